@@ -653,6 +653,7 @@ def run(ctx) -> None:
                 )
     c01_stmt.run(ctx, covered_codes)  # statement-level / schematic advice: hand-written rewrites tied to the message
     rule_correspondence(ctx)
+    matcher_correspondence(ctx)
     for k, n in sorted(unapplied.items()):
         res.notes.append(f"not applied x{n}: {k}")
     res.bump("checks_with_executed_rewrite", len(covered_codes))
@@ -830,3 +831,475 @@ def rule_correspondence(ctx) -> None:
 def replay(path) -> int:
     print(Path(path).read_text())
     return 0
+
+
+# ------------------------------------------------------------------------------------------
+# the check MATCHERS of Model/CheckAst.lean vs refurb's checks: same trees in, same diagnostics out
+
+MATCHER_CODES = [108, 109, 110, 114, 115, 121, 123, 124, 136, 143, 145, 149, 161, 168, 169, 171, 183, 188, 192]
+# messages that name placeholders instead of quoting the operands (their replacement text is compared with the row's own `new`)
+SCHEMATIC_CODES = {108, 114, 124, 136, 161, 168}
+# messages whose replacement text is not an expression over the row's variables (`in (x, y, z)`, class placeholders `y | z`)
+UNCOMPARED_MESSAGE_CODES = {109, 121}
+
+MC_PARAMS = [
+    ("i1", "int"), ("i2", "int"), ("b1", "bool"), ("b2", "bool"), ("s1", "str"), ("s2", "str"), ("f1", "float"), ("f2", "float"),
+    ("l1", "list[int]"), ("l2", "list[int]"), ("t1", "tuple[int, ...]"), ("t2", "tuple[int, str]"), ("d1", "dict[str, int]"),
+    ("st1", "set[int]"), ("fs1", "frozenset[int]"), ("ba1", "bytearray"), ("by1", "bytes"), ("c1", "complex"), ("o1", "object"),
+    ("o2", "object"), ("a1", "Any"), ("n1", "Optional[int]"), ("m1", "MyInt"), ("ms1", "MyStr"), ("ml1", "MyList"), ("lab1", "Label"), ("lab2", "Label"),
+]
+
+
+def _mc_atoms() -> dict[str, list[str]]:
+    by: dict[str, list[str]] = {}
+    for n, a in MC_PARAMS:
+        by.setdefault(a, []).append(n)
+    # pairs that differ in ONE place only (receiver, argument, index, base) sit next to each other: what a lax comparison would confuse
+    by["int"] += ["(i1 + 1)", "l1[0]", "l2[0]", "l1[1]", "len(s1)", "len(s2)", "7", "abs(i2)", "abs(i1)", "d1['k']", "d1['j']", "(i1)"]
+    by["bool"] += ["(not i1)", "s1.isdigit()", "True", "False"]
+    by["str"] += ["s1.strip()", "s2.strip()", "s1.lstrip()", "'ab'", "str(i1)", "s2[1:]", "lab1.t", "lab2.t"]
+    by["list[int]"] += ["[1, 2]", "sorted(l1)", "(l1 + l2)", "[]"]
+    by["tuple[int, ...]"] += ["(1, 2)", "()"]
+    by["float"] += ["0.5", "(f1 * 2)"]
+    return by
+
+
+def _mc_generate(rng: Any, n: int) -> str:
+    """`n` expressions around the shapes the modelled checks look for (hits, near misses, look-alike operand classes), each in a
+    random position (assignment, condition of if/while/assert/comprehension/conditional expression, lambda body, call argument,
+    assignment target, del)"""
+    by = _mc_atoms()
+    every = [x for v in by.values() for x in v]
+    pick = lambda *ts: rng.choice([x for t in ts for x in by[t]]) if ts else rng.choice(every)  # noqa: E731
+    cmp_ops = ["==", "!=", "<", "<=", ">", ">=", "is", "is not", "in", "not in"]
+    ctors = ["bool", "bytes", "complex", "dict", "float", "int", "list", "set", "str", "tuple", "frozenset", "bytearray"]
+    classes = ["int", "str", "bool", "float", "list", "tuple", "dict", "type(None)", "MyInt"]
+    defaults = ['""', "0", "0.0", "[]", "()", "{}", "False", "set()", "frozenset()", 'b""', "None", "1", '"a"', "True", "0j", "[0]"]
+
+    # an operand and the one most easily mistaken for it (one receiver / argument / index / base / bracket / sign away)
+    siblings = {"lab1.t": "lab2.t", "s1.strip()": "s2.strip()", "s2.strip()": "s1.lstrip()", "l1[0]": "l2[0]", "l2[0]": "l1[1]", "abs(i1)": "abs(i2)", "len(s1)": "len(s2)",
+                "d1['k']": "d1['j']", "i1": "i2", "s1": "s2", "l1": "l2", "b1": "b2", "f1": "f2", "o1": "o2", "[1, 2]": "(1, 2)", "(i1 + 1)": "(i1 - 1)", "str(i1)": "str(i2)"}
+
+    def sib(a: str) -> str:
+        return siblings.get(a) or pick()
+
+    def shared() -> str:
+        """the operand a check wants to see twice: half of the time one that has a sibling"""
+        return rng.choice(sorted(siblings)) if rng.random() < 0.5 else pick()
+
+    def same_or(a: str, alt: str, p: float = 0.7) -> str:
+        return a if rng.random() < p else alt
+
+    def g108() -> str:
+        a, b, c = shared(), pick(), pick()
+        op, bo = rng.choice(["==", "==", "==", "!=", "is"]), rng.choice(["or", "or", "and"])
+        forms = [f"{a} {op} {b} {bo} {a} {op} {c}", f"{a} {op} {b} {bo} {c} {op} {a}", f"{b} {op} {a} {bo} {a} {op} {c}", f"{b} {op} {a} {bo} {c} {op} {a}",
+                 f"{a} {op} {b} {bo} {b} {op} {c} {bo} {c}", f"{a} {op} {b} {bo} {c} {op} {pick()}", f"{a} {op} {b} {bo} {a} != {c}", f"{a} {op} {b} {bo} {sib(a)} {op} {c}", f"{b} {op} {a} {bo} {c} {op} {sib(a)}", f"({a} {op} {b} {bo} {a} {op} {c}) {bo} {a} {op} {pick()}"]
+        return rng.choice(forms)
+
+    def g109() -> str:
+        items = ", ".join(pick() for _ in range(rng.randrange(0, 5)))
+        return rng.choice([f"{pick()} in [{items}]", f"{pick()} not in [{items}]", f"{pick()} in ({items},)" if items else f"{pick()} in ()", f"[q for q in [{items}]]",
+                           f"{{q: 1 for q in [{items}]}}", f"{pick()} in {{{items or '1'}}}", f"list(q for q in [{items}] for r in [{items}])"])
+
+    def g110() -> str:
+        a = shared()
+        return rng.choice([f"{a} if {same_or(a, sib(a))} else {pick()}", f"{pick()} if {a} else {a}", f"{a} if not {a} else {pick()}"])
+
+    def g114() -> str:
+        a = pick()
+        return rng.choice([f"not not {a}", f"not (not {a})", f"not -{pick('int')}", f"not not not {a}", f"not ~{pick('int')}"])
+
+    def g115() -> str:
+        x = pick("list[int]", "str", "tuple[int, ...]", "dict[str, int]", "set[int]", "frozenset[int]", "Label", "MyList", "MyStr", "bytes", "bytearray", "tuple[int, str]", "Any", "int")
+        op, k = rng.choice(["==", "!=", ">", ">=", "<=", "<", "is"]), rng.choice(["0", "0", "1", "2", "-1"])
+        forms = [f"len({x}) {op} {k}", f"len({x})", f"not len({x})", f"len({x}) {op} {k} and {pick('bool')}", f"{pick('bool')} or len({x})", f"-len({x})",
+                 f"len(list({x})) {op} {k}", f"len(d1.keys()) {op} {k}", f"len(list(d1.values())) {op} {k}", f"len(*{x}) {op} {k}", f"{k} {op} len({x})",
+                 f"{x} == []", f"{x} != []", f"{x} == ()", f"{x} == {{}}", f"{x} != set()", f"{x} == frozenset()", f"{x} == [0]", f"len({x}) + 1", f"print(len({x}) {op} {k})",
+                 f"len({x}) {op} {k} or {x} == []", f"len({x}, {x}) {op} {k}"]
+        return rng.choice(forms)
+
+    def g121() -> str:
+        a, f = shared(), rng.choice(["isinstance", "isinstance", "issubclass"])
+        t, u = rng.choice(classes), rng.choice(classes)
+        return rng.choice([f"{f}({a}, {t}) or {f}({same_or(a, sib(a))}, {u})", f"{f}({a}, {t}) or {f}({a}, {u}) or {f}({a}, float)", f"isinstance({a}, {t}) or issubclass({a}, {u})",
+                           f"{f}({a}, {t}) and {f}({a}, {u})", f"{f}({a}, ({t}, {u})) or {f}({a}, {u})"])
+
+    def g123() -> str:
+        c = rng.choice(ctors)
+        return rng.choice([f"{c}({pick()})", f"{c}({pick()})", f"{c}(*{pick()})", f"{c}()", f"{c}({pick()}, {pick()})"])
+
+    def g136() -> str:
+        a, b = pick("int", "str", "float", "bool", "MyInt", "object"), pick("int", "str", "float", "bool", "MyInt", "object")
+        if rng.random() < 0.4:
+            a, b = shared(), shared()
+        op = rng.choice(["<", "<=", ">", ">=", "==", "!="])
+        return rng.choice([f"{a} if {a} {op} {b} else {b}", f"{b} if {a} {op} {b} else {a}", f"{a} if {b} {op} {a} else {b}", f"{a} if {a} {op} {b} else {sib(b)}", f"{a} if {sib(a)} {op} {b} else {b}", f"{b} if {a} {op} {b} else {sib(a)}",
+                           f"{a} if {a} {op} {a} else {a}", f"{a} if {a} {op} {b} {op} {b} else {b}"])
+
+    def g143() -> str:
+        a, dflt = pick(), rng.choice(defaults)
+        return rng.choice([f"{a} or {dflt}", f"{a} or {dflt}", f"{a} or {dflt} or {pick()}", f"{dflt} or {a}", f"{a} and {dflt}", f"{pick()} or {a} or {dflt}"])
+
+    def g145() -> str:
+        x = pick("list[int]", "tuple[int, ...]", "bytearray", "str", "MyList", "Label", "bytes", "tuple[int, str]", "Any")
+        return rng.choice([f"{x}[:]", f"{x}[:]", f"{x}[::]", f"{x}[0:]", f"{x}[:][:]", f"{x}[::1]", f"[{x}[:]]", f"({x}[:])[0]"])
+
+    def g149() -> str:
+        a, lit, op = pick("bool", "bool", "int", "object", "MyInt", "Optional[int]"), rng.choice(["True", "False"]), rng.choice(["==", "!=", "is", "is not", "<", "in"])
+        return rng.choice([f"{a} {op} {lit}", f"{lit} {op} {a}", f"{a} {op} {lit}", f"{lit} {op} {lit}", f"{a} {op} {lit} {op} {lit}", f"{a} {op} None"])
+
+    def g161() -> str:
+        a = pick("int", "bool", "MyInt", "object")
+        return rng.choice([f'bin({a}).count("1")', f'bin({a})[2:].count("1")', f'bin({a})[3:].count("1")', f'bin({a}).count("0")', f'hex({a}).count("1")', f'bin({a})[2:5].count("1")',
+                           f'bin({a}).count("1", 2)', f'bin(-{a}).count("1")', f'bin({a} + 1)[2:].count("1")'])
+
+    def g168() -> str:
+        a = pick()
+        return rng.choice([f"isinstance({a}, type(None))", f"isinstance({a}, (type(None), int))", f"isinstance({a}, (int, type(None)))", f"isinstance({a}, int | type(None))",
+                           f"isinstance({a}, type(None) | int | str)", f"isinstance({a}, (int, str))", f"isinstance({a}, type({a}))", f"issubclass({a}, type(None))", f"isinstance({a}, int | str)"])
+
+    def g169() -> str:
+        a, op = pick(), rng.choice(["is", "is not", "==", "!=", "<", "in"])
+        return rng.choice([f"type({a}) {op} type(None)", f"type(None) {op} type({a})", f"type({a}) {op} type({pick()})", f"type({a}) {op} None", f"type({a}) {op} type(None) {op} type(None)"])
+
+    def g171() -> str:
+        a, b = pick(), pick()
+        return rng.choice([f"{a} in ({b},)", f"{a} in [{b}]", f"{a} in {{{b}}}", f"{a} not in ({b},)", f"{a} not in [{b}]", f"{a} in ({b}, {a})", f"{a} in ()", f'{a} in "a"', f"{a} < ({b},)"])
+
+    def g183() -> str:
+        a, b = pick(), pick()
+        return rng.choice([f'f"{{{a}}}"', f'f"{{{a}}}"', f'f"{{{a}}}{{{b}}}"', f'f"a{{{a}}}"', f'f"{{{a}!r}}"', f'f"{{{a}:>4}}"', f'f"{{{a}:{{{b}}}}}"', f'f"{{str({a})}}"', f'f"{{bin({pick("int")})}}"',
+                           "f\"{f'{" + a + "}'}\"", "f\"{f'{" + a + "}'} b\"", f'"{{:{{}}}}".format({a}, "")', f'f"{{len({pick("str")})}}"', f'f"{{{a}}}".strip()'])
+
+    def g188() -> str:
+        s, t = pick("str", "str", "str", "MyStr", "Label", "object"), pick("str", "str", "str", "bytes", "object")
+        if rng.random() < 0.4:
+            s, t = rng.choice(["lab1.t", "s1.strip()", "s1", "str(i1)"]), rng.choice(["lab2.t", "s2.strip()", "s2", "str(i2)"])
+        lit = rng.choice(["ab", "", "pre_", "x"])
+        k = rng.choice([len(lit), len(lit), len(lit) + 1, 0])
+        fn = rng.choice(["startswith", "endswith"])
+        forms = [f"{s}[len({t}):] if {s}.{fn}({t}) else {s}", f"{s}[:-len({t})] if {s}.{fn}({t}) else {s}", f'{s}[{k}:] if {s}.{fn}("{lit}") else {s}', f'{s}[:-{k}] if {s}.{fn}("{lit}") else {s}',
+                 f"{s}[len({t}):] if {s}.{fn}({t}) else {sib(s)}", f"{s}[len({sib(t)}):] if {s}.{fn}({t}) else {s}", f"{s}[len({t}):] if {sib(s)}.{fn}({t}) else {s}",
+                 f"{sib(s)}[:-len({t})] if {s}.{fn}({t}) else {s}", f"{s}[len({t})::1] if {s}.{fn}({t}) else {s}",
+                 f"{s} if {s}.{fn}({t}) else {s}[len({t}):]", f"{s}[len({t}):] if not {s}.{fn}({t}) else {s}", f'{s}[len("{lit}"):] if {s}.{fn}("{lit}") else {s}']
+        return rng.choice(forms)
+
+    def g192() -> str:
+        x = pick("list[int]", "tuple[int, ...]", "str", "set[int]", "MyList", "dict[str, int]")
+        kw = rng.choice(["", "", ", reverse=True", ", reverse=False", ", key=abs", ", key=abs, reverse=True", ", reverse=b1", ", reverse=True, key=abs"])
+        idx = rng.choice(["0", "-1", "0", "-1", "1", "-2", "-i1", "0:1"])
+        return rng.choice([f"sorted({x}{kw})[{idx}]", f"sorted({x}{kw})[{idx}]", f"list({x})[{idx}]", f"sorted({x}, {x})[{idx}]", f"sorted(*{x})[{idx}]"])
+
+    gens = [g108, g108, g109, g110, g114, g115, g115, g115, g121, g123, g123, g136, g136, g143, g143, g145, g149, g149, g161, g168, g169, g171, g183, g183, g188, g188, g192, g192]
+    lines = PREAMBLE.split("\n")
+    sig = ", ".join(f"{n}: {a}" for n, a in MC_PARAMS)
+    for k in range(n):
+        e = rng.choice(gens)()
+        ctx_kind = rng.choice(["assign", "assign", "assign", "if", "while", "assert", "comp", "cond", "lambda", "arg", "default", "elif", "ret", "lvalue", "del", "fstr", "walrus", "dictcomp", "not"])
+        p = f"({e})"
+        body = {
+            "assign": [f"_v = {e}"],
+            "if": [f"if {e}:", "    pass"],
+            "while": [f"while {p}:", "    break"],
+            "assert": [f"assert {p}, {e!r}"],
+            "comp": [f"_v = [0 for _q in () if {p}]"],
+            "cond": [f"_v = 1 if {p} else 2"],
+            "lambda": [f"_v = lambda: {p}"],
+            "arg": [f"print({p}, end=str({p}))"],
+            "default": [f"def _inner(_p={p}):", "    pass"],
+            "elif": ["if i1:", "    pass", f"elif {e}:", "    pass"],
+            "ret": [f"return {e}"],
+            "lvalue": [f"{p}[0] = 1"],
+            "del": [f"del {p}[0]"],
+            "fstr": [f"_v = f\"{{{p}}} and {{i1}}\""] if '"' not in e and "'" not in e and "{" not in e else [f"_v = {e}"],
+            "walrus": [f"if (_w := {p}):", "    pass"],
+            "dictcomp": [f"_v = {{_q: 1 for _q in () if {p}}}"],
+            "not": [f"if not {p}:", "    pass"],
+        }[ctx_kind]
+        func = [f"def gen_{k}({sig}):"] + ["    " + b for b in body] + [""]
+        try:
+            compile("\n".join(func), "<gen>", "exec")
+        except SyntaxError:
+            func = [f"def gen_{k}({sig}):", f"    _v = {p}", ""]
+            try:
+                compile("\n".join(func), "<gen>", "exec")
+            except SyntaxError:
+                continue
+        lines += func
+    # positions only the slice-copy check cares about
+    lines += [f"def gen_slices({sig}):", "    l1[:] = l2[:]", "    del l1[:]", "    del l2[:], l1", "    l2[:][0] = 1", "    _v = lambda: l1[:]", "    l1[:] += l2[:]",
+              "    for l1[:] in [l2[:]]:", "        pass", "    for _q in [i1, i2]:", "        pass", "    with open(s1) as l1[:]:", "        pass", ""]
+    return "\n".join(lines) + "\n"
+
+
+def _mc_roots(stmts: list[Any]) -> tuple[list[dict[str, Any]], list[tuple[int, int, str]], set[tuple[int, int]]]:
+    """the expressions hanging off the statements of a file serialised by harness/astjson.py, each with the role its statement gives it;
+    the line spans of the statements astjson does not serialise (match, raise, …); the positions of the `if` statements"""
+    roots: list[dict[str, Any]] = []
+    opaque: list[tuple[int, int, str]] = []
+    ifpos: set[tuple[int, int]] = set()
+
+    def add(role: str, e: Any) -> None:
+        if e is not None:
+            roots.append({"role": role, "expr": e})
+
+    def blk(b: Any) -> None:
+        for s in b or []:
+            st(s)
+
+    def st(s: Any) -> None:
+        k = s["kind"]
+        if s.get("opaque"):
+            opaque.append((s["line"], s.get("end_line") or s["line"], k))
+        elif k == "AssignmentStmt":
+            for l in s["lvalues"]:
+                add("lvalue", l)
+            add("other", s["rvalue"])
+        elif k == "OperatorAssignmentStmt":
+            add("other", s["lvalue"])
+            add("other", s["rvalue"])
+        elif k in ("ExpressionStmt", "ReturnStmt"):
+            add("other", s["expr"])
+        elif k == "DelStmt":
+            add("del", s["expr"])
+        elif k == "AssertStmt":
+            add("cond", s["expr"])
+            add("other", s["msg"])
+        elif k == "IfStmt":
+            ifpos.add((s["line"], s["col"]))
+            for e in s["expr"]:
+                add("cond", e)
+            for b in s["body"]:
+                blk(b)
+            blk(s["else_body"])
+        elif k == "WhileStmt":
+            add("cond", s["expr"])
+            blk(s["body"])
+            blk(s["else_body"])
+        elif k == "ForStmt":
+            add("other", s["index"])
+            add("for-iter", s["expr"])
+            blk(s["body"])
+            blk(s["else_body"])
+        elif k == "WithStmt":
+            for e in [*s["expr"], *s["target"]]:
+                add("other", e)
+            blk(s["body"])
+        elif k == "FuncDef":
+            for e in s["defaults"]:
+                add("other", e)
+            blk(s["body"])
+        elif k == "Decorator":
+            for e in s["decorators"]:
+                add("other", e)
+            st(s["func"])
+        elif k == "ClassDef":
+            for e in s["bases"]:
+                add("other", e)
+            blk(s["body"])
+        elif k == "TryStmt":
+            blk(s["body"])
+            for h in s["handlers"]:
+                blk(h)
+            blk(s["else_body"])
+            blk(s["finally_body"])
+        elif k == "Block":
+            blk(s["body"])
+
+    blk(stmts)
+    return roots, opaque, ifpos
+
+
+def _mc_same_ast(a: str, b: str) -> bool | None:
+    import ast
+
+    try:
+        return ast.dump(ast.parse("(" + a + ")", mode="eval")) == ast.dump(ast.parse("(" + b + ")", mode="eval"))
+    except (SyntaxError, ValueError):
+        return None
+
+
+def _mc_same_reading(reading: str, source: str) -> bool | None:
+    """is the model's reading of the flagged node the expression Python parses at the node's span?  mypy nests `a or b or c` as
+    `a or (b or c)` and gives every nested node the span of the whole chain: a nested node is the LAST two operands of the chain"""
+    import ast
+
+    try:
+        r, s = ast.parse("(" + reading + ")", mode="eval").body, ast.parse("(" + source + ")", mode="eval").body
+    except (SyntaxError, ValueError):
+        return None
+    if isinstance(s, ast.BoolOp) and len(s.values) > 2 and isinstance(r, ast.BoolOp) and len(r.values) == 2:
+        s = ast.BoolOp(op=s.op, values=s.values[-2:])
+    return ast.dump(r) == ast.dump(s)
+
+
+def matcher_correspondence(ctx) -> None:
+    """Model/CheckAst.lean vs refurb/checks/**: every expression of (a) refurb's own test files for the modelled checks, (b) the idiom
+    module of this property (idioms, near misses, look-alike classes), (c) generated expressions is serialised with refurb's own
+    pipeline (harness/astjson.py, one run) and given to the model's matchers (driver verb `match_checks`); the multiset of
+    (code, line, column, message) they predict must be the multiset real refurb prints for those codes on the same files."""
+    import collections
+    import shutil
+    import subprocess
+    from concurrent.futures import ThreadPoolExecutor
+
+    res = ctx.res
+    if not ctx.driver.available():
+        res.disagreements.append({"where": "driver", "reason": "driver executable not built"})
+        return
+    noqa = re.compile(r"\s*# noqa.*$", re.M)
+    with core.scratch("rv-c01m-") as d:
+        (d / "pyproject.toml").write_text("")
+        files: dict[str, str] = {}
+        for c in MATCHER_CODES:
+            for sub in ("data", "data_3.10"):
+                p = core.REPO / "test" / sub / f"err_{c}.py"
+                if p.exists():
+                    # the `# noqa` comments of the test files are dropped (comment filtering is another property); positions are unchanged
+                    files[f"t_{sub.replace('.', '_')}_{c}.py"] = noqa.sub("", p.read_text())
+        src, _cases = build_module(ctx.rng("c01-near-miss"), 10 if ctx.quick else 40)
+        files["idioms.py"] = src
+        files["generated.py"] = _mc_generate(ctx.rng("c01-matchers"), 450 if ctx.quick else 3000)
+        gate = core.REPO / "test" / "data_3.9" / "err_121.py"
+        files["gate.py"] = (
+            (noqa.sub("", gate.read_text()) if gate.exists() else "")
+            + '\n\ndef gate(n: int, s: str, t: str, o: object):\n    _a = bin(n).count("1")\n    _b = bin(n)[2:].count("1")\n    _c = s[len(t):] if s.startswith(t) else s\n'
+            + '    _d = s[:-len(t)] if s.endswith(t) else s\n    _e = isinstance(o, int) or isinstance(o, str)\n    _f = issubclass(type(o), int) or issubclass(type(o), (str, bytes))\n    return n if n > 1 else 1\n'
+        )
+        for name, text in files.items():
+            (d / name).write_text(text)
+        names = sorted(files)
+
+        def trees() -> Any:
+            env = core.py_env()
+            env["PYTHONPATH"] = str(core.VERIF) + (":" + env["PYTHONPATH"] if env.get("PYTHONPATH") else "")
+            p = subprocess.run([core.PY, "-m", "harness.astjson", "_trees.json", *names], cwd=d, capture_output=True, text=True, timeout=600, env=env)
+            if p.returncode != 0:
+                raise RuntimeError("astjson failed: " + p.stderr[-1500:])
+            return json.loads((d / "_trees.json").read_text())
+
+        def lint(fs: list[str], ver: str | None) -> tuple[list[dict[str, Any]], list[str]]:
+            rc, out, err = core.refurb_cli([*fs, "--enable-all", "--quiet", *(["--python-version", ver] if ver else [])], d)
+            return core.parse_plain(out)
+
+        with ThreadPoolExecutor(4) as ex:
+            ft = ex.submit(trees)
+            runs = {None: ex.submit(lint, names, None), "3.9": ex.submit(lint, ["gate.py"], "3.9"), "3.8": ex.submit(lint, ["gate.py"], "3.8")}
+            data = ft.result()
+            lints = {k: f.result() for k, f in runs.items()}
+    if data["errors"] or any(o for _, o in lints.values()):
+        res.disagreements.append({"where": "matcher-correspondence", "reason": "refurb did not lint the files", "errors": (data["errors"] + [x for _, o in lints.values() for x in o])[:5]})
+        return
+    jobs = [(f, None, (3, 12)) for f in names] + [("gate.py", "3.9", (3, 9)), ("gate.py", "3.8", (3, 8))]
+    per_file = {f: _mc_roots(data["files"][f]) for f in names}
+    answers = ctx.driver.batch([{"verb": "match_checks", "py": list(py), "roots": per_file[f][0]} for f, _, py in jobs])
+    sampled = False
+    for (f, ver, py), hits in zip(jobs, answers):
+        roots, opaque, ifpos = per_file[f]
+        res.bump("matcher_expression_roots", len(roots))
+        lines = files[f].split("\n")
+        skip = lambda line: any(a <= line <= b for a, b, _ in opaque)  # noqa: E731
+        model = collections.Counter((h["code"], h["line"], h["col"] + 1, h["msg"]) for h in hits if not skip(h["line"]))
+        real = collections.Counter()
+        for x in lints[ver][0]:
+            if x["file"] != f or x["code"] not in MATCHER_CODES:
+                continue
+            if skip(x["line"]):
+                res.bump("matcher_diagnostics_inside_unserialised_statements")  # match / raise statements: harness/astjson.py gives no tree for them
+            elif x["code"] == 188 and (x["line"], x["col"] - 1) in ifpos:
+                res.bump("matcher_furb188_statement_form")  # the `if` statement form is a statement rule (c01_stmt)
+            else:
+                real[(x["code"], x["line"], x["col"], x["msg"])] += 1
+        for k, n in (model - real).items():
+            res.disagree("matcher-fires-refurb-silent", {"file": f, "python": ver or "default", "line": lines[k[1] - 1].strip() if 0 < k[1] <= len(lines) else ""}, list(k), f"no such diagnostic (x{n})")
+        for k, n in (real - model).items():
+            res.disagree("refurb-fires-matcher-silent", {"file": f, "python": ver or "default", "line": lines[k[1] - 1].strip() if 0 < k[1] <= len(lines) else ""}, f"no hit (x{n})", list(k))
+        for k, n in real.items():
+            res.case(("matcher", f, ver, k))
+            res.bump(f"matcher_diagnostics_FURB{k[0]}", n)
+        for h in hits:
+            if skip(h["line"]):
+                continue
+            res.bump("matcher_verdict_" + (h["kind"] if h["verdict"] == "row" else "outside"))
+            if h["verdict"] != "row":
+                continue
+            res.bump(f"matcher_rows_FURB{h['code']}")
+            # the reading of the flagged node (`den`, with the row's operands put in) must be the source text Python parses there
+            def cut(l0: int, c0: int, l1: int, c1: int) -> str:
+                seg = lines[l0 - 1 : l1]
+                if seg:
+                    seg[-1] = seg[-1][:c1]
+                    seg[0] = seg[0][c0:]
+                return "\n".join(seg)
+
+            source = cut(*h["node"])
+            reading = re.sub(r"__op_(\d+)_(\d+)_(\d+)_(\d+)__", lambda m: "(" + cut(*map(int, m.groups())) + ")", h["old_src"])
+            same = _mc_same_reading(reading, source)
+            if same is None or '"{:{}}".format(' in source:
+                res.bump("matcher_reading_not_compared")  # unparsable rendering (escapes in a literal) / a literal "{:{}}".format(x, "") call read as the f-string it is
+            elif not same:
+                res.disagree("matcher-reading-vs-source", {"file": f, "rule": h["rule"], "source": source}, reading, "Python parses the flagged text differently")
+            else:
+                res.bump("matcher_reading_is_the_source_text")
+            # the replacement the message prints must be the row's `new` over the same operands
+            parts = rewrite.split_message(h["msg"])
+            if h["code"] in UNCOMPARED_MESSAGE_CODES or parts is None or "_opaque_" in h["new_src"]:
+                res.bump("matcher_message_not_compared")
+                continue
+            want = h["schematic_new"] if h["code"] in SCHEMATIC_CODES else h["new_src"]
+            got = parts[1]
+            if h["code"] == 136 and h["msg"].startswith("Replace `x if y "):
+                got = re.sub(r"\b([xy])\b", lambda m: "y" if m.group(1) == "x" else "x", got)  # this message calls the operands (y, x)
+            if h["code"] == 161:
+                got = got.replace("(x)", "x")
+            same = _mc_same_ast(want, got)
+            if same:
+                res.bump("matcher_message_proposes_the_rows_new")
+            elif re.sub(r"[()\s]", "", want) == re.sub(r"[()\s]", "", got):
+                # refurb prints operands without the parentheses they need (`not a == b`, `a + b.copy()`): C02's subject (lost parentheses)
+                res.bump("matcher_message_is_the_rows_new_up_to_dropped_parentheses")
+            else:
+                res.disagree("matcher-message-vs-row", {"file": f, "rule": h["rule"], "message": h["msg"]}, want, got)
+            if not sampled and h["code"] == 136 and h["kind"] == "proved":
+                sampled = True
+                res.sample({"matcher": "FURB136", "file": f, "line": lines[h["line"] - 1].strip(), "model hit": [h["code"], h["line"], h["col"] + 1, h["msg"]],
+                            "row": h["rule"], "operand classes": h["classes"], "reading of the node": h["old_src"], "replacement": h["new_src"]})
+    res.assumptions += [
+        "matcher correspondence: `# noqa` comments of refurb's test files are removed before linting; diagnostics inside statements harness/astjson.py does not serialise (match, raise) are counted, not compared",
+        "matcher correspondence: is_equivalent / is_same_type / is_sized / is_mapping enter the matchers as verdicts computed by Model/Equiv.lean and Model/Types.lean from the serialised tree (C06, C05 compare those models with refurb)",
+    ]
+
+
+# operands of the class NEXT to the one a type-conditioned check demands (int for bool, bool for int, str for list, ...): silent today; a check
+# whose type guard is loosened starts to fire here, and its rewrite is then applied and executed like any other (hand-written near misses)
+HAND_NEAR_MISSES += [
+    (149, [("n", "int")], "return n == True", {}),
+    (149, [("n", "int")], "return n is not False", {}),
+    (149, [("p", "object")], "return p == False", {}),
+    (123, [("b0", "bool")], "return int(b0)", {}),
+    (123, [("n", "int")], "return float(n)", {}),
+    (123, [("t", "tuple[int, ...]")], "return list(t)", {}),
+    (145, [("s", "str")], "return s[:]", {}),
+    (145, [("bs", "bytes")], "return bs[:]", {}),
+    (143, [("n", "int")], "return n or False", {}),
+    (143, [("fl", "float")], "return fl or 0", {}),
+    (143, [("p", "object")], 'return p or ""', {}),
+    (115, [("p", "object")], "if p == []:\n    return 1\nreturn 2", {}),
+    (115, [("n", "int")], "if len(str(n)) < 1:\n    return 1\nreturn 2", {}),
+    (161, [("n", "int")], 'return bin(n)[3:].count("1")', {}),
+    (171, [("p", "int"), ("q", "int")], "return p in (q, q)", {}),
+    (192, [("nums", "list[int]")], "return sorted(nums, reverse=False)[0]", {}),
+    # the would-be-common operands differ in the RECEIVER of an attribute / method call, the argument of a call, the base / index of a subscript
+    (110, [("la", "Label"), ("lb", "Label")], 'return la.t if lb.t else "-"', {}),
+    (108, [("la", "Label"), ("lb", "Label")], 'return la.t == "ab" or lb.t == ""', {}),
+    (124, [("la", "Label"), ("lb", "Label")], 'return la.t == "ab" and lb.t == "ab"', {}),
+    (136, [("s", "str"), ("t", "str")], 'return s.strip() if t.strip() > "a" else "a"', {}),
+    (110, [("s", "str"), ("t", "str")], 'return s.upper() if t.upper() else "-"', {}),
+    (110, [("nums", "list[int]"), ("other", "list[int]")], "return nums[0] if other[0] else -1", {}),
+    (110, [("nums", "list[int]")], "return nums[0] if nums[-1] else -1", {}),
+    (136, [("p", "int"), ("q", "int")], "return abs(p) if abs(q) > 2 else 2", {}),
+    (188, [("s", "str"), ("t", "str")], 'return s.strip()[1:] if t.strip().startswith("a") else s.strip()', {}),
+    (121, [("p", "object")], "return isinstance(p, int) or issubclass(p, int)", {}),
+    (121, [("p", "object"), ("q", "object")], "return isinstance(p, int) or isinstance(q, str)", {}),
+]
